@@ -134,29 +134,9 @@ def check(ck: Checker) -> None:
                        witness=gl.fmt_path(wit) if wit else None)
 
     # ------------------------------------------------------ absent => failed
-    from .C04 import check as _c04  # noqa: F401  (model shared; rule evaluated here independently)
-    loopvar = m.head.ast.target.id if isinstance(m.head.ast.target, ast.Name) else "?"
-    rec_nodes = set()
-    for x in m.body:
-        for c in calls_at(x):
-            if is_method_call(c, "add", "update") and norm(c.func.value) == m.failed and c.args:
-                t = norm(c.args[0])
-                if t in (f"{m.dir_obj}.hash_info", loopvar, f"[{m.dir_obj}.hash_info]", f"[{loopvar}]"):
-                    rec_nodes.add(x.id)
+    from .C04 import reported_rule
 
-    def success_edge(n, lab, dn):
-        if lab == "exc":
-            return True
-        return n.kind == "test" and lab == "F" and refers_to_call(move, n.ast, [c for _n, c in m.dir_add])
-
-    starts = [d for lab, d in m.head.succ if lab == "T"]
-    reached = g.reach(starts, skip_node=lambda n: n.id in rec_nodes, skip_edge=success_edge)
-    bad = m.head.id in reached
-    ck.require(not bad, "C11.absent-is-failed", move, m.head,
-               "a directory that is not (successfully) sent is always recorded as failed",
-               "a directory object can be withheld without being recorded as failed: TransferResult.transferred would list an object that is absent from the destination",
-               witness=g.fmt_path(g.path_to(reached, m.head.id)) if bad else None,
-               construct=f"for {loopvar} in ... / withheld => failed")
+    reported_rule(ck, m, "C11.absent-is-failed")
 
     # ---------------------------------------------------------- srcreadonly
     n_src = 0
